@@ -1,7 +1,7 @@
 (* C19 — The legacy configuration format round-trips an instance: property theorems. *)
 From Coq Require Import String List Bool ZArith.
 Require Import V.Lib.PyStr V.Lib.JTree V.Dosini.Codec V.Dosini.Generated V.Dosini.Model V.Dosini.Proofs V.Dosini.Tables
-  V.Dosini.Text V.Dosini.TextProofs V.Dosini.FileProofs.
+  V.Dosini.Text V.Dosini.TextProofs V.Dosini.FileProofs V.Dosini.Stages.
 Import ListNotations.
 Open Scope string_scope.
 
@@ -21,6 +21,28 @@ Proof.
   - exact measured_nothing_dropped.
 Qed.
 Print Assumptions C19_tables_inverse.
+
+(* The converse direction, on the measured tables: every option the reader can store (it has an ini key for it) is
+   written by the writers when it is the only option of a component, under that very key.  Together with
+   C19_tables_inverse the two tables are inverse bijections; with C19_component (the model writes every option on its own,
+   whatever else the component sets, and the correspondence compares the real writers with it on every subset of every
+   group of options) no option depends on the presence of another one. *)
+Theorem C19_reader_options_written :
+  forall ik path p ex, In (ik, (path, p, ex)) parse_table -> exists d, lookup path dump_table = Some (ik, d).
+Proof. exact reader_rows_written. Qed.
+Print Assumptions C19_reader_options_written.
+
+(* Stage indices spelled as text (Stages.v): the `stages` entry of an output (','.join of 'stage%d') is read back
+   (split(','), strip, drop empty items, int(item[5:])) as the list that was written, for EVERY list of natural numbers -
+   any length, any number of digits; and the section name 'STAGE%d' of status.conf gives back its index. *)
+Theorem C19_output_stages : forall l, read_stages (write_stages l) = Some l.
+Proof. exact stages_roundtrip. Qed.
+Print Assumptions C19_output_stages.
+
+Theorem C19_stage_names :
+  forall n, stage_index (stage_name n) = Some n /\ status_index (status_name n) = Some n.
+Proof. intros n. split; [apply stage_index_name|apply status_index_name]. Qed.
+Print Assumptions C19_stage_names.
 
 (* Each (writer, reader) pair of codecs is the identity on its domain [wf_valb]: any text; every integer
    (str / int through the decimal printer of Lib.PyStr); floats in plain decimal notation; booleans
@@ -154,5 +176,14 @@ Example C19_example :
   table_ok example_table = true /\
   match write_table example_table with Some txt => read_text txt | None => None end = Some ([], example_table) /\
   match file_section example_comp with Some i => table_ok [("Gen", i)] | None => false end = true /\
-  via_file "Gen" example_comp = Some example_comp.
+  via_file "Gen" example_comp = Some example_comp /\
+  (* the executors are independent options: a stage-in without a stage-out, a docker executor alone *)
+  roundtrip_c (mkComp [("executors.pre.lsf-dm-in.payload", VStr "data/in.txt")] []) =
+    Some (mkComp [("executors.pre.lsf-dm-in.payload", VStr "data/in.txt")] []) /\
+  roundtrip_c (mkComp [("executors.main.docker.docker-image", VStr "repo/img:1"); ("executors.pre.lsf-dm-in.payload", VStr "all")] []) =
+    Some (mkComp [("executors.main.docker.docker-image", VStr "repo/img:1"); ("executors.pre.lsf-dm-in.payload", VStr "all")] []) /\
+  (* stage indices of one and two digits *)
+  write_stages [2; 10; 11]%N = "stage2,stage10,stage11" /\
+  read_stages "stage2, Stage10 ,,STAGE11" = Some [2; 10; 11]%N /\
+  status_index "STAGE12" = Some 12%N.
 Proof. vm_compute. repeat split; reflexivity. Qed.
